@@ -517,6 +517,11 @@ class _Keep(object):
         return r
 
 
+MSG_ERRNO = {'Permission denied': errno.EACCES, 'No such file or directory': errno.ENOENT, 'Is a directory': errno.EISDIR,
+             'Read-only file system': errno.EROFS, 'No space left on device': errno.ENOSPC, 'Not a directory': errno.ENOTDIR}
+WRITE_FAILS = ['Permission denied', 'No such file or directory', 'Is a directory', 'No space left on device']
+
+
 class World(object):
     """pybtex.io with its four outside names replaced (and nothing else)."""
 
@@ -532,8 +537,9 @@ class World(object):
         if extra:
             raise TypeError('unexpected arguments to io.open: %r' % sorted(extra))
         if path in self.fail:
-            code = errno.EACCES if 'w' in mode else errno.ENOENT
-            raise IOError(code, self.fail[path], path)
+            # every kind of EnvironmentError counts as "cannot open": the errno follows the message of the world
+            code = MSG_ERRNO.get(self.fail[path], errno.EACCES if 'w' in mode else errno.ENOENT)
+            raise OSError(code, self.fail[path], path)
         if 'w' not in mode and path not in self.fs:
             raise IOError(errno.ENOENT, 'No such file or directory', path)
         raw = _Keep(self.fs, path, self.fs.get(path, b'')).raw(mode)
@@ -1132,11 +1138,11 @@ def gen_openmatrix(info):
     for fn, mode, enc in (('raw', 'wb', None), ('unicode', 'w', None), ('unicode', 'w', 'utf-16')):
         for path in ('a.bbl', 'sub/a.bbl', '/abs/a.bbl'):
             for tex in (None, '/out', '/out/', '', 'rel'):
-                for fail1 in (False, True):
+                for fail1 in (False,) + tuple(WRITE_FAILS):
                     for fail2 in (False, True):
                         env = [['HOME', '/h']] + ([['TEXMFOUTPUT', tex]] if tex is not None else [])
                         second = posixpath.join(tex, path) if tex is not None else None
-                        fail = [[path, 'Permission denied']] if fail1 else []
+                        fail = [[path, fail1]] if fail1 else []
                         if fail2 and second is not None and second != path:
                             fail.append([second, 'Read-only file system'])
                         elif fail2 and second is None:
@@ -1220,11 +1226,11 @@ def gen_entrypoints(tier, rng, info):
                 n_fault += 1
             wr = {'op': 'entrypoints', 'side': 'write', 'fmt': fmt, 'enc': enc, 'bib': bib}
             for tex in (None, '/out'):
-                for f1 in (False, True):
+                for f1 in (False,) + tuple(WRITE_FAILS[:3]):
                     for f2 in (False, True):
                         if f2 and tex is None:
                             continue
-                        fail = ([['o.dat', 'Permission denied']] if f1 else []) + ([['/out/o.dat', 'Read-only file system']] if f2 else [])
+                        fail = ([['o.dat', f1]] if f1 else []) + ([['/out/o.dat', 'Read-only file system']] if f2 else [])
                         w = {'isfile': [], 'locate': {'kind': 'none'}, 'fail': fail, 'environ': [['TEXMFOUTPUT', tex]] if tex else []}
                         cases.append(dict(wr, world=w, path='o.dat', files=[]))
                         n_fault += 1
